@@ -75,6 +75,8 @@ var (
 	perturbCount int
 )
 
+var disturber *formula.SourceCode
+
 // EvalText parses and evaluates text against data (nil = no map).
 func EvalText(text string, data map[string]interface{}) EvalOut {
 	if Perturb != nil {
@@ -103,9 +105,21 @@ func EvalText(text string, data map[string]interface{}) EvalOut {
 		if data != nil {
 			r2.SetThis(data)
 		}
+		a := out.String()
 		out2 := Eval(r2, context.Background(), p.Src.Expression)
-		if a, b := out.String(), out2.String(); a != b {
+		if b := out2.String(); a != b {
 			return EvalOut{Panic: fmt.Sprintf("the second evaluation of the same parsed tree of %q gave %s, the first gave %s", text, b, a)}
+		}
+		// A result belongs to the caller: later evaluations (the second one above, an unrelated one here)
+		// must not reach into the value that was handed out first.
+		if disturber == nil {
+			disturber = Parse([]byte("[1.5 + 2.25, 'x' + 'y', 0 - 7, [1, 2], 10 / 4]")).Src
+		}
+		if disturber != nil {
+			Eval(formula.NewRunner(), context.Background(), disturber.Expression)
+		}
+		if c := out.String(); c != a {
+			return EvalOut{Panic: fmt.Sprintf("the value returned by the first evaluation of %q was %s and reads %s after later evaluations", text, a, c)}
 		}
 	}
 	return out
